@@ -260,7 +260,9 @@ func runPES(line []byte, rec *recorder) {
 			}
 			ext := int64(r.pick(0, 1, 2, 4, 8, 16, 32, 64, 128, 256, 511, 299))
 			d := astits.ClockReference{Base: b, Extension: ext}.Duration()
-			rec.ev(M{"ev": "dur", "class": "duration", "base": wide(b), "ext": int(ext), "secs": int(int64(d) / 1e9), "nanos": int(int64(d) % 1e9)})
+			tm := astits.ClockReference{Base: b, Extension: ext}.Time() // the same instant counted from the epoch
+			rec.ev(M{"ev": "dur", "class": "duration", "base": wide(b), "ext": int(ext), "secs": int(int64(d) / 1e9), "nanos": int(int64(d) % 1e9),
+				"tsecs": int(tm.Unix()), "tnanos": tm.Nanosecond()})
 		}
 		for k := 0; k <= 22; k++ {
 			o := randOpt(r, 0x10, 0)
